@@ -96,7 +96,7 @@ EXPORT errno_t _strcmp_s_chk(const char *dest, rsize_t dmax, const char *src,
     }
 
     slen = 0;
-    while (*dest && *src && dmax) {
+    while (dmax && *dest && *src) {
 
         if (*dest != *src) {
             break;
